@@ -145,3 +145,7 @@ CHECKS["C05"]["thorough"]["fuzz"] = dict(target="FuzzC05", seconds=120)
 CHECKS["C15"]["thorough"]["fuzz"] = dict(target="FuzzC15", seconds=240)
 CHECKS["C19"]["thorough"]["fuzz"] = dict(target="FuzzC19", seconds=120)
 CHECKS["C20"]["thorough"]["fuzz"] = dict(target="FuzzC20", seconds=120)
+
+# depth of the thorough tier for the world-based checks comes from waves of processes (a process is capped at 150 worlds)
+for _p, _r in [("C01", 3), ("C02", 3), ("C03", 3), ("C06", 3), ("C09", 3), ("C10", 3), ("C07", 2), ("C13", 3), ("C14", 2), ("C16", 4)]:
+    CHECKS[_p]["thorough"]["rounds"] = _r
